@@ -38,7 +38,15 @@ def resolve(s, L, depth=0):
         if w in L and w != 'r':
             return '(' + resolve(L[w], L, depth + 1) + ')'
         return w
-    return re.sub(r'(?<![\w.])[A-Za-z_]\w*(?![\w(.])', rep, s)
+    s = re.sub(r'(?<![\w.])[A-Za-z_]\w*(?![\w(.])', rep, s)
+
+    def rep_alias(m):
+        w = m.group(1)
+        # a local that merely names a member path (const struct reb_vec3d boxsize = r->boxsize): boxsize.y -> r.boxsize.y
+        if w in L and w != 'r' and re.match(r'^[A-Za-z_][\w.]*$', L[w].strip('()')):
+            return L[w].strip('()') + '.'
+        return m.group(0)
+    return re.sub(r'(?<![\w.])([A-Za-z_]\w*)\.(?=[A-Za-z_])', rep_alias, s)
 
 
 def canon(s):
